@@ -61,8 +61,15 @@ func (g *Group[T]) ServeHTTP(w http.ResponseWriter, r *http.Request) {
 	ctx := types.NewContext()
 	defer ctx.Destroy()
 
-	// 如果已经在 [NewGroup] 中指定了 Recovery 的相关参数，那么在初始化 g.routers
-	// 时会自动为各个路由添加，无需在此处再次添加 Recovery 的处理。
+	// 通过 [Group.New] 创建的路由会继承 [NewGroup] 中指定的 Recovery 参数，
+	// 但是通过 [Group.Add] 添加的路由以及 g.notFound 并没有，所以需要在此处统一处理。
+	if g.recoverFunc != nil {
+		defer func() {
+			if err := recover(); err != nil {
+				g.recoverFunc(w, err)
+			}
+		}()
+	}
 
 	for _, router := range g.routers {
 		if ok := router.matcher.Match(r, ctx); ok {
@@ -72,13 +79,6 @@ func (g *Group[T]) ServeHTTP(w http.ResponseWriter, r *http.Request) {
 		ctx.Reset()
 	}
 
-	if g.recoverFunc != nil { // g.notFound 可能 panic
-		defer func() {
-			if err := recover(); err != nil {
-				g.recoverFunc(w, err)
-			}
-		}()
-	}
 	g.call(w, r, ctx, g.notFound)
 }
 
